@@ -183,3 +183,74 @@ Proof.
   - apply (no_program_writes _ _ _ _ _ _ _ _ Hin Hci).
   - apply (no_program_writes _ _ _ _ _ _ _ _ Hin Hcv).
 Qed.
+
+(* ---------- slice_slowest is a subscript range on the slowest axis ---------- *)
+Open Scope Z_scope.
+Lemma rowmajor_bound : forall dims idx, in_range dims idx = true ->
+  0 <= rowmajor_off dims idx 0 < prodZ dims.
+Proof.
+  induction dims as [|d ds IH]; intros [|i is_] H; cbn in H; try discriminate.
+  - cbn. lia.
+  - apply andb_true_iff in H. destruct H as [H Hr]. apply andb_true_iff in H. destruct H as [H0 H1].
+    apply Z.leb_le in H0. apply Z.ltb_lt in H1. specialize (IH _ Hr).
+    cbn [rowmajor_off]. rewrite rowmajor_acc by (apply in_range_length; exact Hr).
+    change (prodZ (d :: ds)) with (d * prodZ ds). nia.
+Qed.
+
+Lemma colmajor_bound : forall dims idx, in_range dims idx = true ->
+  0 <= colmajor_off dims idx < prodZ dims.
+Proof.
+  induction dims as [|d ds IH]; intros [|i is_] H; cbn in H; try discriminate.
+  - cbn. lia.
+  - apply andb_true_iff in H. destruct H as [H Hr]. apply andb_true_iff in H. destruct H as [H0 H1].
+    apply Z.leb_le in H0. apply Z.ltb_lt in H1. specialize (IH _ Hr).
+    cbn [colmajor_off]. change (prodZ (d :: ds)) with (d * prodZ ds). nia.
+Qed.
+
+Lemma nth_error_firstn_skipn : forall A (l : list A) s m i, (i < m)%nat ->
+  nth_error (firstn m (skipn s l)) i = nth_error l (s + i).
+Proof.
+  intros A l s m i Hi. revert l. induction s as [|s IH]; intros l.
+  - cbn [skipn plus]. revert m Hi l. induction i as [|i IHi]; intros [|m] Hi l; try lia; destruct l; cbn; auto.
+    apply IHi. lia.
+  - destruct l as [|x l]; [cbn; rewrite firstn_nil; destruct i; reflexivity|]. cbn [skipn plus nth_error]. apply IH.
+Qed.
+
+(* row-major: v[lo:hi][j, idx] = v[lo + j, idx] *)
+Theorem slice_slowest_row : forall t n inner_ flat lo hi j idx,
+  0 <= lo -> hi <= n -> 0 <= j < hi - lo -> in_range inner_ idx = true ->
+  aget (slice_slowest (mkA t (n :: inner_) RowMajor flat) lo hi) (j :: idx)
+  = aget (mkA t (n :: inner_) RowMajor flat) (lo + j :: idx).
+Proof.
+  intros t n inner_ flat lo hi j idx Hlo Hhi Hj Hin.
+  pose proof (rowmajor_bound inner_ idx Hin) as Hb. pose proof (in_range_length _ _ Hin) as Hl.
+  unfold slice_slowest, aget, slowest, inner. cbn [a_dims a_ord a_nt a_flat tl in_range offset rowmajor_off].
+  rewrite Hin.
+  replace (Z.leb 0 j && Z.ltb j (hi - lo) && true) with true
+    by (symmetry; rewrite !andb_true_iff; repeat split; [apply Z.leb_le|apply Z.ltb_lt]; lia).
+  replace (Z.leb 0 (lo + j) && Z.ltb (lo + j) n && true) with true
+    by (symmetry; rewrite !andb_true_iff; repeat split; [apply Z.leb_le|apply Z.ltb_lt]; lia).
+  rewrite (rowmajor_acc inner_ idx (0 * (hi - lo) + j)) by exact Hl.
+  rewrite (rowmajor_acc inner_ idx (0 * n + (lo + j))) by exact Hl.
+  set (P := prodZ inner_) in *. set (o := rowmajor_off inner_ idx 0) in *.
+  rewrite nth_error_firstn_skipn by nia. f_equal. nia.
+Qed.
+
+(* column-major: v(idx, lo+1 : hi)(idx, j) = v(idx, lo + j) (0-based j) *)
+Theorem slice_slowest_col : forall t n inner_ flat lo hi j idx,
+  0 <= lo -> hi <= n -> 0 <= j < hi - lo -> in_range inner_ idx = true ->
+  aget (slice_slowest (mkA t (inner_ ++ [n]) ColMajor flat) lo hi) (idx ++ [j])
+  = aget (mkA t (inner_ ++ [n]) ColMajor flat) (idx ++ [lo + j]).
+Proof.
+  intros t n inner_ flat lo hi j idx Hlo Hhi Hj Hin.
+  pose proof (colmajor_bound inner_ idx Hin) as Hb. pose proof (in_range_length _ _ Hin) as Hl.
+  unfold slice_slowest, aget, slowest, inner. cbn [a_dims a_ord a_nt a_flat offset].
+  rewrite removelast_last. rewrite !in_range_app by exact Hl. rewrite Hin. cbn [in_range].
+  replace (Z.leb 0 j && Z.ltb j (hi - lo) && true) with true
+    by (symmetry; rewrite !andb_true_iff; repeat split; [apply Z.leb_le|apply Z.ltb_lt]; lia).
+  replace (Z.leb 0 (lo + j) && Z.ltb (lo + j) n && true) with true
+    by (symmetry; rewrite !andb_true_iff; repeat split; [apply Z.leb_le|apply Z.ltb_lt]; lia).
+  cbn [andb]. rewrite !colmajor_snoc by exact Hl.
+  set (P := prodZ inner_) in *. set (o := colmajor_off inner_ idx) in *.
+  rewrite nth_error_firstn_skipn by nia. f_equal. nia.
+Qed.
